@@ -508,7 +508,7 @@ func (g *replayGen) runReplay(params []Val, dir string, attempt int) map[string]
 	if o.Kind == "ensures" {
 		if con := e.cs.Funcs[o.Func]; con != nil {
 			for i, en := range con.Ensures {
-				if strings.HasSuffix(o.Name, fmt.Sprintf("#ensures%d", i+1)) {
+				if strings.HasSuffix(o.Name, fmt.Sprintf("#ensures%d", i+1)) || strings.Contains(o.Name, fmt.Sprintf("#ensures%d@", i+1)) {
 					sc := &specCompiler{g: g, fn: fn, argName: map[string]string{}, res: resNames}
 					for k, p := range fn.Params {
 						sc.argName[p.Name()] = argNames[k]
